@@ -152,7 +152,7 @@ impl Ty {
             Ty::Float64 => "DOUBLE".into(),
             Ty::Bool => "BOOLEAN".into(),
             Ty::Date32 => "DATE".into(),
-            Ty::TsMicros => "TIMESTAMP".into(),
+            Ty::TsMicros => "TIMESTAMP(6)".into(),
             Ty::Dec(p, s) => format!("DECIMAL({p},{s})"),
             Ty::Utf8 => "VARCHAR".into(),
         }
